@@ -662,11 +662,15 @@ impl KeyboardMatrix {
         let _ = memory;
         if let Some(state) = self.states.get_mut(code as usize) {
             let was_pressed = state.pressed;
-            state.pressed = true;
-            state.debounced = false;
-            state.press_ticks = 0;
-            state.release_ticks = 0;
-            state.repeat_ticks = self.repeat_delay;
+            if !was_pressed {
+                // Match Python KeyboardMatrix.press_key: a press of an already held key is a
+                // no-op, and a debounced key that is re-pressed inside the release interval
+                // stays debounced (no second press event without a release in between).
+                state.pressed = true;
+                state.press_ticks = 0;
+                state.release_ticks = 0;
+                state.repeat_ticks = self.repeat_delay;
+            }
             self.kil_latch = self.compute_kil(false);
             // Parity: defer event enqueue/KEYI to timer-driven scan_tick; do not push KIL to IMEM here.
             if self.keyi_on_any_press && !was_pressed {
@@ -681,11 +685,10 @@ impl KeyboardMatrix {
     pub fn release_matrix_code(&mut self, code: u8, memory: &mut MemoryImage) {
         let _ = memory;
         if let Some(state) = self.states.get_mut(code as usize) {
+            // Match Python KeyboardMatrix.release_key: keep the debounced (logical) state so
+            // scan_tick emits the release event after the release interval.
             state.pressed = false;
-            state.debounced = false;
-            state.press_ticks = 0;
             state.release_ticks = 0;
-            state.repeat_ticks = 0;
             self.kil_latch = self.compute_kil(false);
             // Parity: defer event enqueue/KEYI to timer-driven scan_tick.
         }
